@@ -18,18 +18,18 @@ import (
 )
 
 func init() {
-	treeRules := []func(*World, *Report){rulePairedEffects, ruleDetachClearsLinks, ruleLinkSymmetry, ruleEndsRecomputed, ruleDetachAliasing, ruleDetachBeforeAttach, ruleRawSetterCallers, ruleNilReference, ruleForeignGuard}
+	treeRules := []func(*World, *Report){rulePairedEffects, ruleDetachClearsLinks, ruleEndsHaveNoOutwardLink, ruleLinkSymmetry, ruleEndsRecomputed, ruleDetachAliasing, ruleDetachBeforeAttach, ruleRawSetterCallers, ruleNilReference, ruleForeignGuard}
 	register(&Property{
 		ID:      "C05",
 		Level:   "other",
 		Explain: "Decides the link/count clause only: (P) along every path of every mutator of ast.BaseNode the change of childCount equals the number of nodes attached (SetParent(self)) minus the number detached (SetParent(nil)); a reset to zero happens only in the function that detaches every child in a loop over the child list; (L) on every path each x.next = y written is matched by y.prev = x (written on the same path or untouched because y was x's neighbour already) and vice versa; (D) a node is detached from its old parent before it is attached; (W) the raw link setters are called only inside package ast, so every other package can change the tree only through the checked mutators. Since Parse builds the tree exclusively through these mutators, ChildCount/Parent/sibling links agree with the child sequence of every parsed tree. Does NOT decide positions within the source, ordering of lines/segments, leftover bookkeeping nodes, legal placement of kinds, link nesting or heading/emphasis levels (values computed from the input).",
-		Rules:   append(append([]func(*World, *Report){}, treeRules...), ruleLevelsBounded),
+		Rules:   append(append([]func(*World, *Report){}, treeRules...), ruleLevelsBounded, ruleStaleCursorModule),
 	})
 	register(&Property{
 		ID:      "C13",
 		Level:   "other",
 		Explain: "Decides, for the mutation API: (P) count/attach balance on every path of every mutator; (L) link symmetry on every path, including each iteration of SortChildren; (D) detach-before-attach; (N) a reference node that one insertion method accepts as nil is never dereferenced unguarded by its sibling; (W) raw setters only inside package ast. For Walk: (K) a finite-state check of the walker helper over the abstract outcomes {error, Stop, SkipChildren, Continue}: the first event is walker(n, true); after an error or Stop no further call happens and that error (with the walker's status or Stop) is returned; children are visited only when the status is not SkipChildren, in a loop from FirstChild along NextSibling, each recursive result is tested; exactly one walker(n, false) follows and its error/Stop is propagated; otherwise (Continue, nil). Does NOT decide SortChildren's ordering (depends on the comparator) or insertion into a node's own subtree (excluded by the statement).",
-		Rules:   append(append([]func(*World, *Report){}, treeRules...), ruleWalkProtocol),
+		Rules:   append(append([]func(*World, *Report){}, treeRules...), ruleWalkProtocol, ruleSortInsertionPoint),
 	})
 }
 
@@ -190,7 +190,7 @@ func enumSegmentPathsWithBackedge(seg Segment, headers map[*ssa.BasicBlock]bool,
 				ok = false
 				return
 			}
-			visit(Path{append([]*ssa.BasicBlock{}, blocks...), append([]int{}, edges[:len(edges)-1]...)}, facts, true)
+			visit(Path{append([]*ssa.BasicBlock{}, blocks...), append([]int{}, edges[:len(edges)-1]...), b}, facts, true)
 			return
 		}
 		blocks = append(blocks, b)
@@ -205,7 +205,7 @@ func enumSegmentPathsWithBackedge(seg Segment, headers map[*ssa.BasicBlock]bool,
 				ok = false
 				return
 			}
-			visit(Path{append([]*ssa.BasicBlock{}, blocks...), append([]int{}, edges...)}, facts, false)
+			visit(Path{append([]*ssa.BasicBlock{}, blocks...), append([]int{}, edges...), nil}, facts, false)
 			return
 		}
 		var iff *ssa.If
@@ -294,6 +294,17 @@ type pathState struct {
 	isolated map[string]bool
 	order    []string // event log
 	bad      []string
+	eval     map[ssa.Value]string // accessor results as evaluated when reached
+	path     Path
+}
+
+// symAt gives the value number of v at the end of the path (join phis resolved along the path).
+func (ps *pathState) symAt(v ssa.Value) string {
+	v0 := stripMakeIface(resolveAlong(stripMakeIface(v), ps.path.Blocks))
+	if s, ok := ps.eval[v0]; ok {
+		return s
+	}
+	return ps.sym(v0)
 }
 
 func (ps *pathState) self(v ssa.Value) bool {
@@ -377,8 +388,9 @@ func (ps *pathState) isNil(s string) bool {
 func (w *World) runTreePath(tm *treeModel, fn *ssa.Function, p Path, facts map[string]bool) *pathState {
 	ps := &pathState{tm: tm, fn: fn, facts: map[string]bool{}, heap: map[string]string{}, isolated: map[string]bool{}}
 	evaluated := map[ssa.Value]string{}
+	ps.eval, ps.path = evaluated, p
 	symOf := func(v ssa.Value) string {
-		v0 := stripMakeIface(v)
+		v0 := stripMakeIface(resolveAlong(stripMakeIface(v), p.Blocks))
 		if s, ok := evaluated[v0]; ok {
 			return s
 		}
@@ -614,6 +626,244 @@ func ruleDetachClearsLinks(w *World, r *Report) {
 		}
 	}
 	r.Expect("mutators that detach a node directly", n, 1)
+}
+
+// ---- C13-H the ends of the child list have no outward link ------------------------------------------------------
+
+// ruleEndsHaveNoOutwardLink: FirstChild().PreviousSibling() and LastChild().NextSibling() are nil. Path rule with a
+// loop invariant for a head carried by a loop (SortChildren keeps its sorted prefix in a variable and stores it into
+// firstChild after the loop): the carried head has a nil previous link on every edge into the loop header.
+func ruleEndsHaveNoOutwardLink(w *World, r *Report) {
+	r.Rule("C13-H", "On every path of every mutator of ast.BaseNode (CFG cut at loop headers): a non-nil node stored into firstChild has a nil previous-sibling link at the end of the path (written nil, isolated, or known nil from a branch), and a non-nil node stored into lastChild outside a loop has a nil next-sibling link. When the stored head is a value carried around a loop (a header phi), the invariant 'its previous link is nil' is checked inductively on every edge into that header: the incoming value is nil, the carried value itself, or a node whose previous link is nil at the end of that path. (lastChild stores inside a loop are the recomputation idiom of C13-E.)")
+	tm := w.treeModel()
+	if tm == nil {
+		r.Unknown("ast.BaseNode", "", "tree model not recognised")
+		return
+	}
+	nStores := 0
+	for _, fn := range w.treeMutators(tm) {
+		key := w.FnKey(fn)
+		segs, headers := segmentsOf(fn)
+		bad := map[string]bool{}
+		flag := func(k, pos, msg string) {
+			if !bad[k] {
+				bad[k] = true
+				r.Bad(key+": "+k, pos, msg)
+			}
+		}
+		stores := 0
+		needInv := map[*ssa.Phi]bool{} // header phis whose "prev is nil" invariant is relied upon
+		type pathRec struct {
+			p  Path
+			ps *pathState
+		}
+		var toHeaderPaths []pathRec
+		for _, seg := range segs {
+			seg := seg
+			complete := enumSegmentPathsWithBackedge(seg, headers, func(p Path, facts map[string]bool, toHeader bool) {
+				ps := w.runTreePath(tm, fn, p, facts)
+				if toHeader {
+					toHeaderPaths = append(toHeaderPaths, pathRec{p, ps})
+				}
+				// stores to first/last on this path, with the stored SSA value
+				for _, b := range p.Blocks {
+					for _, ins := range b.Instrs {
+						st, ok := ins.(*ssa.Store)
+						if !ok {
+							continue
+						}
+						fa, ok := st.Addr.(*ssa.FieldAddr)
+						if !ok || !ps.self(fa.X) {
+							continue
+						}
+						_, f := fieldOfAddr(fa)
+						role := tm.byVar[f]
+						if role != "first" && role != "last" {
+							continue
+						}
+						stores++
+						// only the final value matters
+						x := ps.symAt(st.Val)
+						if ps.heap["self|"+role] != x {
+							continue
+						}
+						if ps.isNil(x) {
+							continue
+						}
+						if role == "last" && seg.Loop {
+							continue // recomputation idiom (C13-E)
+						}
+						link := map[string]string{"first": "prev", "last": "next"}[role]
+						v := ps.read(x, link)
+						if ps.isNil(v) {
+							continue
+						}
+						if role == "first" {
+							if phi, ok := stripMakeIface(resolveAlong(stripMakeIface(st.Val), p.Blocks)).(*ssa.Phi); ok && headers[phi.Block()] {
+								needInv[phi] = true
+								continue
+							}
+						}
+						flag(fmt.Sprintf("%sChild = %s", role, x), w.InstrPos(st), fmt.Sprintf("the node stored into %sChild may still have a %s-sibling link (%s) at the end of this path", role, link, v))
+					}
+				}
+			})
+			if !complete {
+				r.Unknown(key+": path bound", w.FnPos(fn), "too many paths")
+			}
+		}
+		for phi := range needInv {
+			h := phi.Block()
+			edgesSeen := 0
+			for _, pr := range toHeaderPaths {
+				if pr.p.Next != h {
+					continue
+				}
+				pred := pr.p.Blocks[len(pr.p.Blocks)-1]
+				for pi, pb := range h.Preds {
+					if pb != pred {
+						continue
+					}
+					edgesSeen++
+					in := stripMakeIface(resolveAlong(stripMakeIface(phi.Edges[pi]), pr.p.Blocks))
+					if in == ssa.Value(phi) || isNilConst(in) {
+						continue
+					}
+					s := pr.ps.symAt(in)
+					if pr.ps.isNil(s) {
+						continue
+					}
+					if v := pr.ps.read(s, "prev"); !pr.ps.isNil(v) {
+						flag(fmt.Sprintf("head carried by the loop at %s", w.blockPos(h)), w.InstrPos(pred.Instrs[len(pred.Instrs)-1]), fmt.Sprintf("the new head %s reaches the loop header with a previous-sibling link that is not known to be nil (%s); it is later stored into firstChild, so FirstChild().PreviousSibling() can be non-nil", s, v))
+					}
+				}
+			}
+			if edgesSeen == 0 {
+				r.Unknown(key+": loop invariant", w.blockPos(h), "no edge into the loop header was enumerated")
+			}
+		}
+		nStores += stores
+		if stores > 0 && len(bad) == 0 {
+			r.OK(key, w.FnPos(fn), "every node stored into firstChild/lastChild has no outward sibling link")
+		}
+	}
+	r.Expect("stores to firstChild/lastChild examined on paths", nStores, 10)
+}
+
+// ---- C13-O insertion point of the in-place sort ---------------------------------------------------------------------
+
+// ruleSortInsertionPoint: SortChildren is an in-place insertion sort. Whatever the comparator computes, the element e
+// being inserted must be linked in front of the very node it was compared with and found "not less than" (or at the
+// end of the list). Comparing one node and linking in front of another puts e one position off.
+func ruleSortInsertionPoint(w *World, r *Report) {
+	r.Rule("C13-O", "In every mutator of ast.BaseNode that takes a comparator: on every path (CFG cut at loop headers) on which the element e under insertion (the comparator's second argument) gets its next-sibling link set to X, either X is nil on that path, or the path contains a comparator call cmp(Y, e) with Y the same node as X (same value number) whose outcome on the path is 'not less' (cmp < 0 false, cmp >= 0 true, or cmp > 0 true). I.e. e is inserted exactly in front of the first node that does not sort before it. A function without direct comparator calls on the inserted element is not an in-place insertion sort and its ordering is not decided here.")
+	tm := w.treeModel()
+	if tm == nil {
+		r.Unknown("ast.BaseNode", "", "tree model not recognised")
+		return
+	}
+	nFn := 0
+	for _, fn := range w.treeMutators(tm) {
+		var cmp *ssa.Parameter
+		for _, p := range fn.Params {
+			if sig, ok := p.Type().Underlying().(*types.Signature); ok && sig.Params().Len() == 2 && sig.Results().Len() == 1 && isInteger(sig.Results().At(0).Type()) {
+				cmp = p
+			}
+		}
+		if cmp == nil {
+			continue
+		}
+		nFn++
+		key := w.FnKey(fn)
+		inserted := map[ssa.Value]bool{}
+		for _, b := range fn.Blocks {
+			for _, ins := range b.Instrs {
+				if c, ok := ins.(*ssa.Call); ok && c.Common().Value == ssa.Value(cmp) && len(c.Common().Args) == 2 {
+					inserted[stripMakeIface(c.Common().Args[1])] = true
+				}
+			}
+		}
+		if len(inserted) == 0 {
+			r.OK(key+": ordering", w.FnPos(fn), "no direct comparator call: not an in-place insertion sort; ordering not decided")
+			continue
+		}
+		segs, headers := segmentsOf(fn)
+		bad := map[string]bool{}
+		links := 0
+		for _, seg := range segs {
+			complete := enumSegmentPathsWithBackedge(seg, headers, func(p Path, facts map[string]bool, toHeader bool) {
+				ps := w.runTreePath(tm, fn, p, facts)
+				type cmpCall struct {
+					y       string
+					notLess bool
+				}
+				var cmps []cmpCall
+				for _, b := range p.Blocks {
+					for _, ins := range b.Instrs {
+						c, ok := ins.(*ssa.Call)
+						if !ok {
+							continue
+						}
+						if c.Common().Value == ssa.Value(cmp) && len(c.Common().Args) == 2 {
+							nl := false
+							for _, ref := range referrersOf(c) {
+								bo, ok := ref.(*ssa.BinOp)
+								if !ok || bo.X != ssa.Value(c) {
+									continue
+								}
+								z, isC := constInt(bo.Y)
+								if !isC || z != 0 {
+									continue
+								}
+								v, has := facts[condKey(bo)]
+								if !has {
+									continue
+								}
+								if (bo.Op == token.LSS && !v) || (bo.Op == token.GEQ && v) || (bo.Op == token.GTR && v) {
+									nl = true
+								}
+							}
+							cmps = append(cmps, cmpCall{ps.symAt(c.Common().Args[0]), nl})
+							continue
+						}
+						if !c.Common().IsInvoke() || c.Common().Method.Name() != "SetNextSibling" {
+							continue
+						}
+						recv := stripMakeIface(resolveAlong(stripMakeIface(c.Common().Value), p.Blocks))
+						if !inserted[recv] {
+							continue
+						}
+						links++
+						x := ps.symAt(c.Common().Args[0])
+						ok2 := ps.isNil(x)
+						for _, cc := range cmps {
+							if cc.y == x && cc.notLess {
+								ok2 = true
+							}
+						}
+						if !ok2 {
+							k := key + ": insertion point"
+							if !bad[k] {
+								bad[k] = true
+								var seen []string
+								for _, cc := range cmps {
+									seen = append(seen, fmt.Sprintf("cmp(%s, e) notLess=%v", cc.y, cc.notLess))
+								}
+								r.Bad(k, w.InstrPos(c), fmt.Sprintf("the inserted element is linked in front of %s, but on this path that node was not the one compared and found not-less (comparisons on the path: %s): the element lands one position off", x, strings.Join(seen, "; ")))
+							}
+						}
+					}
+				}
+			})
+			if !complete {
+				r.Unknown(key+": path bound", w.FnPos(fn), "too many paths")
+			}
+		}
+		if len(bad) == 0 {
+			r.OK(key+": insertion point", w.FnPos(fn), fmt.Sprintf("%d linking steps on paths: each links the element in front of the node it was compared with (or at the end)", links))
+		}
+	}
+	r.Expect("mutators taking a comparator", nFn, 1)
 }
 
 // ---- C13-L ---------------------------------------------------------------------------------------------
